@@ -4,7 +4,7 @@
 
   Every statement is for all hit lists (any length, equal starts, equal scores, nested and chained
   overlaps, duplicates), all profile-length tables and both modes of `refine_hmmscan_results`.
-  The model is the code with fixes D11, D22, D25, D26, D32, D60, D61 applied (see design/C13.md).
+  The model is the code with fixes D11, D22, D25, D26, D32, D61, D62 applied (see design/C13.md).
 -/
 import ASV.Proofs.RefineCover
 import ASV.Proofs.RefineIncomplete
@@ -45,7 +45,7 @@ theorem refine_provenance (env : Env) (nb : Bool) (l : List Hit) :
   obtain ⟨F, hF, hm⟩ := refine_from env nb l o ho
   exact ⟨F, hF, isMergeOf_of env hm⟩
 
-/-- **no two returned hits overlap by more than the allowed margin** (fix D60; was the open finding
+/-- **no two returned hits overlap by more than the allowed margin** (fix D61; was the open finding
     KF-C13-greedy-overlap): any two returned hits `a` before `b` satisfy
     `b.start ≥ a.end − 0.2·max(len a, len b)` — the code's strong form, measured to the end of the
     earlier hit — for every input, in both modes … -/
@@ -64,7 +64,7 @@ theorem refine_margin_longest_profile (env : Env) (nb : Bool) (l : List Hit) (m5
     (hl : ∀ h ∈ l, env.len h.prof ≤ m5) : allStartClearBy m5 (refine env nb l) = true :=
   (allStartClearBy_iff _ _).mpr (refine_clearBy env nb m5 l hl)
 
-/-! ## the overlap pass (`_remove_overlapping`, fix D60) -/
+/-! ## the overlap pass (`_remove_overlapping`, fix D61) -/
 
 /-- the pass only selects: its result is a sub-list of its input (input order kept) -/
 theorem removeOverlapping_selects (env : Env) (l : List Hit) : (removeOverlapping env l).Sublist l :=
@@ -303,7 +303,7 @@ theorem equivalence_best_per_group (eqs : List (List Int)) (hits out : List FHit
   · simp only [Option.some.injEq] at h; subst h
     exact foldl_filterPass_separated eqs hits hu g hg hq
 
-/-- **the single best hit of each overlapping group survives** (fix D61), with the tie rule: in a
+/-- **the single best hit of each overlapping group survives** (fix D62), with the tie rule: in a
     competition that runs (≥ 2 profiles of the equivalence group hit the gene) a hit survives exactly
     when no hit of its overlapping group — the hits `Linked` to it through chains of > 20-residue
     overlaps — is preferred to it: a higher bitscore, or the same bitscore and an earlier place in the
